@@ -8,8 +8,8 @@ SPEC = {
     "needs_plz": False,
     "level": "proof",
     "level_text": (
-        "PARTIAL. Three of the seven recorded defects are repaired by fix: commits (322a687 `?` -> `[^/]`, d6bcce1 leading "
-        "`^.*/` -> `^(.*/)?`, a32e1e7 `( ) | { }` escaped); the model follows through the regenerated ReplaceAll chain "
+        "PARTIAL. Three of the seven recorded defects are repaired by fix: commits (d49879b `?` -> `[^/]`, a75aa5a leading "
+        "`^.*/` -> `^(.*/)?`, adbc1a2 `( ) | { }` escaped); the model follows through the regenerated ReplaceAll chain "
         "(`opts`), C21_repairs shows each repair removes its witness, and the matcher hypotheses relax accordingly. The "
         "property as stated is still refuted for the current code (C21_exact_refuted, C21_witnesses_persist) by four "
         "remaining root causes: hidden-dir-contents, package-root-returned, negated-class-matches-slash, "
@@ -50,7 +50,7 @@ MUTATIONS = """
 Seeded change /tmp/seedout/C21/patch.diff (isBathPathOf reduced to a bare string-prefix test): exit 1 -- extractor reports the
  shouldExcludeMatch/isBathPathOf shape unreadable, Expected facts + thorough correspondence: 20 disagreements, oracle VIOLATION
  class unexplained with input (package with BUILD.plz at top level and build name BUILD: Glob=[] specified=["BUILD.plz"]).
-Fix phase: three fix: commits (322a687, d6bcce1, a32e1e7); on each cumulative copy 347/347 and ./check C21 quick exit 0 with the
+Fix phase: three fix: commits (d49879b, a75aa5a, adbc1a2); on each cumulative copy 347/347 and ./check C21 quick exit 0 with the
  repaired class gone and no new class.
 
 Dry-runs on a scratch copy (VERIF_REPO=/var/tmp/mC21 ./check C21 quick), findings loaded from findings_inbox/C21.jsonl:
